@@ -195,6 +195,17 @@ Definition diagnose (c : ccase) : option (N * obs * option obs) :=
 Definition model_agrees (c : ccase) : bool :=
   match diagnose c with None => true | Some _ => false end.
 
+(* is a label list a schedule of the model (used by the harness's shrinker)? *)
+Definition model_enabled (su : setup) (ls : list clabel) : bool :=
+  match snd (cinit su) with
+  | Ok s0 =>
+      match run (stack3 (su_def su)) verify3 (su_p su) true true cbcap3 s0 ls with
+      | Some _ => true
+      | None => false
+      end
+  | _ => false
+  end.
+
 (* ---- vocabulary for the specification predicates: the implementation's trace ---- *)
 
 Definition istep : Type := N * clabel * obs.
